@@ -167,3 +167,23 @@ package http
 //@   at mapupdate 1 assert* wildcard.decoded.once: value == decode1(select(select(rawSeg, x), i)) && key == m.wildcards[r.Method + "::" + select(chiPat, x)] && map == vars
 //@   at mapupdate 2 assert* named.decoded.once: value == decode1(select(select(rawSeg, x), i)) && key == params.Keys[i] && map == vars
 //@   modifies nothing
+
+//@ func (*mux).ResolvePattern
+//@   property C16
+//@   requires m != nil && r != nil && r.URL != nil && r.ctx != nil
+//@   let x = ptr(*chi.Context, chiCtxOf(r.ctx))
+//@   requires x != nil ==> select(chiPat, x) != ""
+//@   let p = select(chiPat, x)
+//@   ensures* unrouted: x == nil ==> result == ""
+//@   ensures* catchall: x != nil && inMap(m.wildcards, r.Method + "::" + p) ==> result == substr(p, 0, len(p) - 2) + "/{*" + m.wildcards[r.Method + "::" + p] + "}"
+//@   ensures* plain: x != nil && !inMap(m.wildcards, r.Method + "::" + p) ==> result == p
+//@   modifies nothing
+
+//@ func (*mux).Handle$1
+//@   property C16 C05
+//@   requires w != nil && req != nil && req.ctx != nil
+//   -- the request context holds no foreign value under goa's content type key
+//@   requires ctxVal(req.ctx, iface(contextKey, 2)) == nil || typeIs(ctxVal(req.ctx, iface(contextKey, 2)), string)
+//@   let v = encLastVal
+//@   ensures* status404: select(whCalls, w) == old(select(whCalls, w)) + 1 && select(whLastCode, w) == 404
+//@   ensures* body: encCount == old(encCount) + 1 && typeIs(v, *ErrorResponse) && v.(*ErrorResponse).Name == "fault" && v.(*ErrorResponse).Fault
